@@ -36,6 +36,13 @@ INNERS = {
     "swapped-bytes": (["ByteSwapped", ["Bytes", 4]], lambda r: bytes(r.randrange(256) for _ in range(4))),     # value: bytes as long as the region, other content
     "xor-fixed": (["FixedSized", 4, ["ProcessXor", 0x5a, ["name", "GreedyBytes"]]], lambda r: bytes(r.randrange(256) for _ in range(4))),
     "bitsswapped": (["BitsSwapped", ["Bytes", 3]], lambda r: bytes(r.randrange(256) for _ in range(3))),
+    # deferred members inside the covered region (skipped by their size while the region is parsed)
+    "lazy-prefixed": (["Struct", [["blob", ["Lazy", ["Prefixed", ["name", "Int16ub"], ["name", "GreedyBytes"], True]]], ["t", B]]],
+                      lambda r: {"blob": bytes(r.randrange(256) for _ in range(r.randrange(0, 5))), "t": r.randrange(256)}),
+    "lazyarray-prefixed": (["Struct", [["xs", ["LazyArray", 2, ["Prefixed", B, ["name", "GreedyBytes"], True]]], ["t", ["name", "Int16ul"]]]],
+                           lambda r: {"xs": [bytes(r.randrange(256) for _ in range(r.randrange(0, 4))) for _ in range(2)], "t": r.randrange(65536)}),
+    "lazystruct": (["LazyStruct", [["a", B], ["b", ["Prefixed", B, ["name", "GreedyBytes"], False]], ["c", ["name", "Int16ub"]]]],
+                   lambda r: {"a": r.randrange(256), "b": bytes(r.randrange(256) for _ in range(r.randrange(0, 4))), "c": r.randrange(65536)}),
     "empty-bytes": (["Bytes", 0], lambda r: b""),                       # regions of no bytes at all
     "empty-array": (["Array", 0, B], lambda r: []),
     "varint": (["name", "VarInt"], lambda r: r.choice([0, 1, 127, 128, 300, 2 ** 21, 2 ** 35])),
@@ -46,6 +53,8 @@ DIGESTS = {
     "md5list": (["Array", 4, B], 4),
     # digest fields whose stream size is larger than the digest
     "sha1padded": (["Padded", 24, ["Bytes", 20]], 24), "crc32aligned": (["Aligned", 8, ["name", "Int32ub"]], 8),
+    # digests stored as text (hex digits in lower / upper case): a changed character is a changed digest, whatever its case
+    "crc32hex": (["PaddedString", 8, "ascii"], 8), "md5HEX": (["PaddedString", 12, "ascii"], 12),
 }
 
 
@@ -210,7 +219,7 @@ def run_message(ctx, case):
             return
         ctx.count("messages_rebuilt_after_edit")
     # every single-bit corruption
-    variable = inner in ("var", "term", "nested", "varint", "aligned")
+    variable = inner in ("var", "term", "nested", "varint", "aligned", "lazy-prefixed", "lazyarray-prefixed", "lazystruct")
     for bit in range(len(msg) * 8):
         bad = bytearray(msg)
         bad[bit // 8] ^= 0x80 >> (bit % 8)
@@ -243,7 +252,7 @@ def run_message(ctx, case):
         if got[0] == "accept":
             ctx.violation("corruption-undetected:%s:%s" % (where, digest), "bit %d (%s) flipped and parse succeeded; reference verdict %s" % (bit, where, want[0]), dict(case, bit=bit))
             break
-        if want[0] == "checksum" and got[0] != "checksum":
+        if want[0] == "checksum" and got[0] != "checksum" and not inner.startswith("lazy"):      # (a deferred member reads its bytes later than the reference run does: any rejection counts)
             ctx.violation("corruption-wrong-exception:%s:%s" % (got[1], digest), "bit %d (%s) flipped, layout intact: expected ChecksumError, got %s" % (bit, where, got[1]), dict(case, bit=bit))
             break
         if variable or fmt in ("prefixed", "offsetted"):
@@ -452,7 +461,43 @@ def run_ptrstream(ctx, case):
     ctx.nontrivial("ptrstream", hl, target, len(rest))
 
 
+def run_lazyrecords(ctx, case):
+    """checksummed records with a deferred member, read one after the other from one stream, the deferred member looked at
+    before the next record is read (and, in the second format, by a later member of the same region while it is being parsed):
+    every record still reports its own region and verifies, and the stream ends where the records end"""
+    import construct as C, zlib
+    crc = lambda d: zlib.crc32(d) & 0xffffffff
+    if case["variant"] == "touched-between":
+        body = C.Struct("z" / C.Lazy(C.Int16ub), "n" / C.Byte, "d" / C.Bytes(C.this.n))
+    else:
+        body = C.Struct("z" / C.Lazy(C.Int16ub), "n" / C.Byte, "c" / C.Computed(lambda ctx: ctx.z() + 1), "d" / C.Bytes(C.this.n))
+    rec = C.Struct("body" / C.RawCopy(body), "crc" / C.Checksum(C.Int32ub, crc, C.this.body.data), "t" / C.Byte)
+    items = case["records"]
+    regions = [z.to_bytes(2, "big") + bytes([len(d)]) + bytes(d) for z, d in items]
+    blob = b"".join(rg + crc(rg).to_bytes(4, "big") + bytes([i]) for i, rg in enumerate(regions))
+    s = TracedStream(bytes([0xEE]) * case["offset"] + blob, pos=case["offset"])
+    pos = case["offset"]
+    for i, ((z, d), rg) in enumerate(zip(items, regions)):
+        ctx.ev()
+        try:
+            r = rec.parse_stream(s)
+            zv = r.body.value.z()                 # the deferred member is evaluated now, while the stream is still in use
+        except Exception as e:
+            ctx.violation("checksum-parse-rejects-valid-message:lazy-records:" + type(e).__name__, "record %d of a correctly assembled stream raised %s: %s" % (i, type(e).__name__, str(e)[:120]), case)
+            return
+        f = r.body
+        if zv != z or bytes(f.value.d) != bytes(d) or f.data != rg or (f.offset1, f.offset2) != (pos, pos + len(rg)) or r.t != i or s.pos != pos + len(rg) + 5:
+            ctx.violation("rawcopy-offsets:lazy-records", "record %d: z=%r d=%r data=%s offsets=(%r,%r) t=%r stream at %d; expected z=%d d=%s data=%s offsets=(%d,%d) t=%d stream at %d"
+                          % (i, zv, f.value.d, f.data.hex(), f.offset1, f.offset2, r.t, s.pos, z, bytes(d).hex(), rg.hex(), pos, pos + len(rg), i, pos + len(rg) + 5), case)
+            return
+        pos += len(rg) + 5
+    ctx.count("lazy_record_streams")
+    ctx.nontrivial("lazy-records", case["variant"], len(items), case["offset"])
+
+
 def run_case(ctx, case):
+    if case["kind"] == "lazyrecords":
+        return run_lazyrecords(ctx, case)
     if case["kind"] == "ptrstream":
         run_ptrstream(ctx, case)
     elif case["kind"] == "message":
@@ -486,12 +531,17 @@ def run(ctx):
                     continue
                 for j in range(ctx.pick(2, 10)):
                     v = INNERS[i][1](rng)
-                    case = {"kind": "rawcopy", "inner": i, "wrap": wrapk, "offset": off, "value": tag(v), "value2": tag(INNERS[i][1](rng)), "file": (off % 5 == 0 and j == 0)}
+                    case = {"kind": "rawcopy", "inner": i, "wrap": wrapk, "offset": off, "value": tag(v), "value2": tag(INNERS[i][1](rng)), "file": (off % 5 == 0 and j == 0 and not i.startswith("lazy"))}    # (a lazy result needs its stream open: not through parse_file)
                     run_case(ctx, case)
                     if k % 60 == 0 and j == 0:
                         ctx.sample(case)
 
 
+    for j in range(ctx.pick(12, 120)):
+        if ctx.mine(j):
+            for variant in ("touched-between", "touched-during"):
+                run_case(ctx, {"kind": "lazyrecords", "variant": variant, "offset": rng.choice([0, 3]),
+                               "records": [[rng.randrange(65536), [rng.randrange(256) for _ in range(rng.randrange(0, 5))]] for _ in range(rng.randint(2, 4))]})
     k = 0
     for hl in (1, 2, 5):
         for target in (0, 1, hl - 1, hl + 1, -1, -6):
